@@ -946,6 +946,99 @@ def r14(k: Kit) -> None:
               '[rsa-sha2-512], server signs H with ssh-rsa / presents a '
               'trusted ssh-ed25519 key: handshake completes)',
               fi.loc(fi.node))
+    # ... and every client-side verification of the reply signature is
+    # preceded by the comparison of its algorithm with the negotiated one
+    n = 0
+    for q in ('kex_dh._KexDHBase._verify_reply', 'kex_rsa._KexRSA._process_done'):
+        if not k.idx.has_func(q):
+            continue
+        vf = k.func(q)
+        vg = k.cfg(vf)
+        ver = [nd for nd, c in k.calls_named(vf, 'verify')]
+        chk = [nd.id for nd, c in k.call_nodes(vf, lambda c: isinstance(
+            c.func, ast.Attribute) and 'sig_alg' in c.func.attr)]
+        for nd in ver:
+            n += 1
+            w = vg.path(vg.entry, nd.id, blocked_nodes=chk)
+            rep.check(bool(chk) and w is None, 'C03.R14',
+                      key(vf, 'signature algorithm compared first'),
+                      'check of the signature algorithm on every path to '
+                      'verify()',
+                      'the reply signature is verified under whatever '
+                      'algorithm its blob names: a server answers a client '
+                      'that offered only rsa-sha2-512 with an ssh-rsa '
+                      '(SHA-1) signature and the handshake completes',
+                      k.loc(vf, nd), vg.describe_path(w) if w else None)
+    rep.floor('C03.R14', 'client-side reply verifications', n, 2)
+    if k.idx.has_func('kex.Kex.check_host_key_sig_alg'):
+        cf = k.func('kex.Kex.check_host_key_sig_alg')
+        cg = k.cfg(cf)
+        cmp_ok = any(a.kind in ('atom', 'return') and a.ast is not None and
+                     any(isinstance(x, ast.Compare) and
+                         'self._host_key_alg' in names_read(x)
+                         for x in ast.walk(a.ast)) for a in cg.nodes)
+        rep.check(cmp_ok, 'C03.R14',
+                  key(cf, 'compares with the negotiated algorithm'),
+                  'signature algorithm == f(self._host_key_alg)',
+                  'the check does not involve the negotiated algorithm',
+                  cf.loc(cf.node))
+
+
+GROUP_BITS = {1: 1024, 14: 2048, 15: 3072, 16: 4096, 17: 6144, 18: 8192}
+
+
+def r15(k: Kit) -> None:
+    """A fixed-group method runs over the group and hash its name says."""
+    import re as _re
+    rep = k.rep
+    idx = k.idx
+    rep.rule('C03.R15', 'kex_dh registration table of the fixed Diffie-'
+             'Hellman groups: in every row the group number in the method '
+             'name, in the generator constant and in the modulus constant '
+             'agree, the hash named is the hash object given, and the '
+             'modulus constant folds to an integer of that group\'s size '
+             '(RFC 2409 / 3526: 1024, 2048, 3072, 4096, 6144, 8192 bits) - '
+             'both ends of an asyncssh pair would make the same mistake, so '
+             'the negotiated method name would silently stand for a weaker '
+             'group')
+    mod = idx.module('kex_dh')
+    rows = []
+    for st in mod.tree.body:
+        if isinstance(st, ast.For) and isinstance(st.iter, ast.Tuple):
+            for row in st.iter.elts:
+                if isinstance(row, ast.Tuple) and len(row.elts) >= 4 and \
+                        isinstance(row.elts[0], ast.Constant) and \
+                        isinstance(row.elts[0].value, bytes) and \
+                        row.elts[0].value.startswith(b'group') and \
+                        isinstance(row.elts[2], ast.Name):
+                    rows.append(row)
+    rep.floor('C03.R15', 'fixed group rows', len(rows), 10)
+    for row in rows:
+        name = row.elts[0].value.decode()
+        m = _re.match(r'group(\d+)-(sha\d+)', name)
+        hn = dotted(row.elts[1])
+        gn, pn = dotted(row.elts[2]), dotted(row.elts[3])
+        num = int(m.group(1)) if m else None
+        bad = None
+        if not m:
+            bad = 'name not of the form groupN-shaM'
+        elif hn != m.group(2):
+            bad = f'hash object {hn} for a method named {m.group(2)}'
+        elif gn != f'_group{num}_g' or pn != f'_group{num}_p':
+            bad = f'constants {gn}, {pn} for group {num}'
+        else:
+            pv = idx.fold_name(mod, pn)
+            want = GROUP_BITS.get(num)
+            if not isinstance(pv, int) or (want and pv.bit_length() != want):
+                bad = (f'{pn} folds to a '
+                       f'{pv.bit_length() if isinstance(pv, int) else "?"}'
+                       f'-bit number, group {num} has {want} bits')
+        rep.check(bad is None, 'C03.R15',
+                  f'kex_dh|row diffie-hellman-{name}',
+                  'name, constants and size agree',
+                  f'{bad}: negotiation, both KEXINITs and the exchange hash '
+                  f'say {name}, the exchange runs over another group',
+                  f'{mod.relpath}:{row.lineno}')
 
 
 def run(idx, rep, tier):
@@ -968,6 +1061,7 @@ def run(idx, rep, tier):
     r12(k)
     r13(k)
     r14(k)
+    r15(k)
     # C03.R10: shared rule
     from .c17 import port_fallback as _pf, r2 as _c17r2
     rep.rule('C03.R10', 'the host key of the cleartext reply is looked up the way known_hosts says (= C17.R6 port fallback and C17.R2 marker routing): port-less entries are consulted only when [host]:port has no trusted entry of any kind, so a key listed for the plain host cannot stand in for a port whose own entry names a CA')
@@ -982,3 +1076,6 @@ def run(idx, rep, tier):
     _c01r4(k)
     for o in rep.obligations[_before:]:
         o.rule = 'C03.R11'
+    from .shared import share
+    from .c06 import r1 as _c06r1
+    share(k, 'C03.R16', 'until the peer\'s NEWKEYS the inbound direction is cleartext and serves key exchange messages only (= rows of C06.R1): a post-kex packet injected between our NEWKEYS and the peer\'s is refused, whatever session id already exists', _c06r1, keep=lambda key: 'noenc' in key)
